@@ -131,6 +131,15 @@ type EventRec struct {
 	Note string `json:"note,omitempty"`
 }
 
+// ProbeRec: a fresh unary RPC issued on the default channel after the run was drained (tunnel liveness).
+type ProbeRec struct {
+	Step     int    `json:"step"`
+	Returned bool   `json:"returned"`
+	Code     int    `json:"code"`
+	Err      string `json:"err,omitempty"`
+	Frames   int    `json:"frames"` // carrier frames emitted because of the probe
+}
+
 type YieldRec struct {
 	Point string `json:"point"`
 	Occ   int    `json:"occ"`
@@ -152,6 +161,7 @@ type Trace struct {
 	PhaseStart  map[string]int `json:"phase_start"`
 	Notes       []string      `json:"notes,omitempty"`
 	Labels      map[string]int `json:"labels,omitempty"`
+	Probe       *ProbeRec     `json:"probe,omitempty"`
 	Deadlock    string        `json:"deadlock,omitempty"` // bubble deadlock panic text on exit
 	Aborted     string        `json:"aborted,omitempty"`
 }
